@@ -64,6 +64,8 @@ def run(rep):
     x9(rep, w)
     x10(rep, w)
     x11(rep, w)
+    x12(rep, w)
+    x13(rep, w)
 
 
 def x1(rep, w):
@@ -146,6 +148,10 @@ def x2(rep, w):
     for nm in ('return_statement', 'emit_return', 'break_statement', 'continue_statement'):
         f = w.require_fn(P + nm, 'C08')
         ev = emits(w, f, {'PopExcHandler', 'JumpFinally'})
+        if not ev:
+            # through a helper of the parser that emits the opcode (e.g. one JumpFinally per enclosing try body)
+            helpers = {g.path for g in w.yarel.fns.values() if g.file.endswith('compiler.rs') and emits(w, g, {'PopExcHandler', 'JumpFinally'})}
+            ev = [bi for bi, t in f.calls() if callee_name(t) in helpers and callee_name(t) != P + 'emit_return']
         # reaches emit_return (which has the opcode) counts for return_statement's `return;` arm
         if nm == 'return_statement':
             semi = [bi for bi, t in f.calls() if callee_name(t) == P + 'emit_return']
@@ -326,27 +332,64 @@ def field_stores(f, field):
     return out
 
 
+def try_region_field(w):
+    """the Compiler field that tells `return` it is inside a try body: the field read by the functions that emit JumpFinally"""
+    cands = {}
+    for g in w.yarel.fns.values():
+        if not g.file.endswith('compiler.rs'):
+            continue
+        if not any(o == 'JumpFinally' for (_, _, o, _) in emit.emissions(w, g)):
+            continue
+        for b in g.blocks:
+            for s_ in b['s']:
+                rr = s_.get('r', {})
+                for o in [rr.get('o'), rr.get('a'), rr.get('b')]:
+                    pl = op_place(o) if isinstance(o, dict) else None
+                    for e in (pl or {}).get('p') or []:
+                        if isinstance(e, dict) and 'n' in e and c01.base_type_before_last(g, {'l': pl['l'], 'p': pl['p'][:pl['p'].index(e) + 1]}) == 'yarel::compiler::Compiler':
+                            cands.setdefault(e['n'], set()).add(g.path)
+    if len(cands) != 1:
+        raise Broken('C08', 'anchor', 'cannot identify the try-region field of Compiler (candidates: %s)' % sorted(cands))
+    (name, users), = cands.items()
+    return name, users
+
+
 def x8(rep, w):
-    """Compiler.in_try_block decides whether `return` compiles to JumpFinally (which pops a handler at run time). It has to be true
-    exactly while the code being compiled runs with this try statement's handler registered: the try body, and nothing else --
-    the handler is gone when the catch / finally blocks run (unwind_stack, PopExcHandler and JumpFinally all pop it)."""
-    r = rep.rule('X8', 'the compiler\'s in_try_block flag is true exactly for the try body: set before PushExcHandler, restored before the catch and finally '
-                 'blocks are compiled; a nested function starts with it false', floor=5)
+    """the compiler's try-region state (a flag or a nesting depth) decides whether `return` compiles to JumpFinally, which pops a handler
+    at run time. It has to be raised exactly while the code being compiled runs with this try statement's handler registered: the try
+    body, and nothing else -- the handler is gone when the catch / finally blocks run (unwind_stack, PopExcHandler and JumpFinally all
+    pop it)."""
+    r = rep.rule('X8', 'the compiler\'s try-region state is raised exactly for the try body: raised before PushExcHandler, restored before the catch and finally '
+                 'blocks are compiled; a nested function starts with it cleared', floor=5)
+    fld, consumers = try_region_field(w)
     f = w.require_fn(P + 'try_statement', 'C08')
     dom = f.dominators()
     org = origins(f)
-    stores = field_stores(f, 'in_try_block')
-    sets = [bi for bi, s in stores if (op_const(s['r'].get('o', {}) or {}) or {}).get('v') == 1]
-    restores = [bi for bi, s in stores if op_const(s['r'].get('o', {}) or {}) is None and 'in_try_block' in operand_fields(f, org, s['r'].get('o', {}))]
-    r.check(len(stores) == 2 and len(sets) == 1 and len(restores) == 1, 'try_statement writes the flag twice: true, then the saved previous value',
-            'try_statement writes in_try_block %d times (%d x true, %d x saved value)' % (len(stores), len(sets), len(restores)), f.loc())
+    stores = field_stores(f, fld)
+
+    def is_raise(s_):
+        k = op_const(s_['r'].get('o', {}) or {})
+        if k is not None:
+            return k.get('v') == 1
+        pl = op_place(s_['r'].get('o', {}) or {})
+        # saved + 1
+        if pl is None:
+            return False
+        for b in f.blocks:
+            for s2 in b['s']:
+                rr = s2.get('r', {})
+                if rr.get('rv') == 'bin' and rr['op'].startswith('Add') and (op_const(rr['b']) or {}).get('v') == 1 and fld in operand_fields(f, org, rr['a']):
+                    if s2['d']['l'] == pl['l'] or any(('#bin' in q) for q in org.get(pl['l'], ()) if fld in q):
+                        return True
+        return False
+    sets = [bi for bi, s_ in stores if is_raise(s_)]
+    restores = [bi for bi, s_ in stores if not is_raise(s_) and op_const(s_['r'].get('o', {}) or {}) is None and fld in operand_fields(f, org, s_['r'].get('o', {}))
+                and not any('#bin' in q for q in org.get((op_place(s_['r'].get('o', {}) or {}) or {}).get('l'), ()))]
+    r.check(len(stores) == 2 and len(sets) == 1 and len(restores) == 1, 'try_statement writes Compiler.%s twice: raised, then the saved previous value' % fld,
+            'try_statement writes Compiler.%s %d times (%d x raised, %d x saved value)' % (fld, len(stores), len(sets), len(restores)), f.loc())
     if len(sets) != 1 or len(restores) != 1:
         return
     sb, rb = sets[0], restores[0]
-    consumers = {g.path for g in w.yarel.fns.values() if g.path != f.path and any(
-        isinstance(p_, dict) and p_.get('n') == 'in_try_block' for b in g.blocks for s in b['s'] for p_ in ((s.get('r', {}).get('p') or {}).get('p') or []) + (((op_place(s.get('r', {}).get('o', {}) or {}) or {}).get('p')) or []))}
-    if not consumers:
-        raise Broken('C08', 'anchor', 'no reader of Compiler.in_try_block found')
     reach = w.can_reach(consumers)
     sites = sorted(bi for bi, t in f.calls() if callee_name(t) in reach and callee_name(t) not in emit.REPORTERS)
     body = [b for b in sites if sb in dom.get(b, ()) and rb not in dom.get(b, ())]
@@ -354,23 +397,23 @@ def x8(rep, w):
     other = [b for b in sites if b not in body and b not in after]
     push = [bi for (bi, k, o, d) in emit.emissions(w, f) if o == 'PushExcHandler']
     pop = [bi for (bi, k, o, d) in emit.emissions(w, f) if o == 'PopExcHandler']
-    r.check(len(push) == 1 and sb in dom.get(push[0], ()), 'the flag is set before PushExcHandler is emitted', 'in_try_block is set after the handler push was emitted', f.loc())
+    r.check(len(push) == 1 and sb in dom.get(push[0], ()), 'the state is raised before PushExcHandler is emitted', 'Compiler.%s is raised after the handler push was emitted' % fld, f.loc())
     r.check(len(body) == 1 and len(pop) == 1 and body[0] in dom.get(pop[0], ()) and not other,
-            'exactly the try body (the one block compiled before PopExcHandler) is compiled with the flag set: %d site(s)' % len(body),
-            'statement-compiling calls made while in_try_block is still set: %d (and %d on paths where it may or may not be set); only the try body runs with the handler '
-            'registered -- a `return` compiled with the flag set elsewhere executes JumpFinally without a handler of its own' % (len(body), len(other)), f.loc())
-    r.check(len(after) >= 2, 'catch and finally blocks are compiled after the flag was restored: %d site(s)' % len(after),
-            'fewer than two block-compiling calls follow the restore of in_try_block', f.loc())
+            'exactly the try body (the one block compiled before PopExcHandler) is compiled with the state raised: %d site(s)' % len(body),
+            'statement-compiling calls made while Compiler.%s is still raised: %d (and %d on paths where it may or may not be); only the try body runs with the handler '
+            'registered -- a `return` compiled with the state raised elsewhere executes JumpFinally without a handler of its own' % (fld, len(body), len(other)), f.loc())
+    r.check(len(after) >= 2, 'catch and finally blocks are compiled after the state was restored: %d site(s)' % len(after),
+            'fewer than two block-compiling calls follow the restore of Compiler.%s' % fld, f.loc())
     cn = w.require_fn('yarel::compiler::Compiler::new', 'C08')
     ok = False
     for b in cn.blocks:
-        for s in b['s']:
-            rr = s.get('r', {})
-            if rr.get('rv') == 'agg' and rr.get('adt') == 'yarel::compiler::Compiler' and 'in_try_block' in (rr.get('fn') or []):
-                k = op_const(rr['ops'][rr['fn'].index('in_try_block')])
+        for s_ in b['s']:
+            rr = s_.get('r', {})
+            if rr.get('rv') == 'agg' and rr.get('adt') == 'yarel::compiler::Compiler' and fld in (rr.get('fn') or []):
+                k = op_const(rr['ops'][rr['fn'].index(fld)])
                 ok = k is not None and k.get('v') == 0
-    r.check(ok, 'Compiler::new: in_try_block = false', 'a new function body does not start with in_try_block = false: a return in a function declared inside a try block '
-            'would pop the enclosing function\'s handler', cn.loc())
+    r.check(ok, 'Compiler::new: %s starts cleared' % fld, 'a new function body does not start with Compiler.%s cleared: a return in a function declared inside a try block '
+            'would pop the enclosing function\'s handler' % fld, cn.loc())
 
 
 def err_exits(g):
@@ -546,3 +589,52 @@ def x11(rep, w, rid='X11', prop='C08'):
         r.check((adt, fld) in rw, 'return_impl resets %s.%s' % (adt.rsplit('::', 1)[-1], fld),
                 'return_impl removes the frame whose finally block was running but leaves %s.%s as it was: the next EndFinally anywhere re-raises whatever is on top of the stack, '
                 'and the recorded throw site points into the discarded function' % (adt.rsplit('::', 1)[-1], fld), ri.loc())
+
+
+def x12(rep, w):
+    """"finally runs on every exit from its try/catch": when the catch block starts, unwind_stack has already removed the statement's
+    handler, so nothing leads from the catch block to the finally code except falling off its end. A `return` or a `throw` inside the
+    catch block leaves the statement without running the finally block -- unless the catch block is itself compiled under a handler
+    whose target is the finally code (and `return` there is routed through JumpFinally)."""
+    r = rep.rule('X12', 'the catch block runs under a handler that leads to the statement\'s finally code (a return or throw inside catch still runs finally)', floor=1)
+    f = w.require_fn(P + 'try_statement', 'C08')
+    ev = emit.emissions(w, f)
+    blocks = sorted(bi for bi, t in f.calls() if callee_name(t) == P + 'block')
+    decl = sorted(bi for bi, t in f.calls() if callee_name(t) == P + 'declare_variable')
+    if len(blocks) != 3 or not decl:
+        raise Broken('C08', 'anchor', 'try_statement: expected three block() calls and a catch variable declaration')
+    catch_block = blocks[1]
+    pushes = [bi for (bi, k, o, d) in ev if o == 'PushExcHandler']
+    covering = [p_ for p_ in pushes if any(p_ in f.reachable_blocks(d_) for d_ in decl) and catch_block in f.reachable_blocks(p_)]
+    r.check(bool(covering), 'try_statement / catch block covered by a finally handler',
+            'no handler is registered between the catch variable and the catch block: `catch e { return 1; } finally { .. }` returns without running the finally block, and an exception '
+            'thrown inside the catch block propagates without running it', f.loc())
+
+
+def x13(rep, w):
+    """try statements nest inside one function, and each enclosing try body owns a registered handler and a finally block. A `return`
+    has to leave through all of them, innermost first: one JumpFinally per enclosing try body. A yes/no flag cannot say how many."""
+    r = rep.rule('X13', '`return` leaves through the finally block of every enclosing try statement of the function (one JumpFinally per nesting level)', floor=1)
+    c = w.yarel
+    fty = None
+    rf, _ = try_region_field(w)
+    for fd in c.adts['yarel::compiler::Compiler']['variants'][0]['fields']:
+        if fd['n'] == rf:
+            fty = (fd['n'], c.tstr(fd['t']))
+    # can try statements nest? (try_statement reaches itself through block/statement)
+    nests = (P + 'try_statement') in w.reach_from({P + 'block'})
+    sites = []
+    fld, consumers = try_region_field(w)
+    for g in sorted(w.yarel.fns.values(), key=lambda x: x.path):
+        if not g.file.endswith('compiler.rs'):
+            continue
+        for (bi, k, o, d) in emit.emissions(w, g):
+            if o == 'JumpFinally':
+                looped = any(bi in g.reachable_blocks(s_) for s_ in g.succs()[bi])
+                sites.append((g.path, looped))
+    if not sites:
+        raise Broken('C08', 'anchor', 'no JumpFinally emission found in return_statement / emit_return')
+    counted = fty is not None and fty[1] != 'bool'
+    r.check((not nests) or (counted and all(l for _, l in sites)), 'return through nested try statements',
+            'try statements nest but the compiler keeps a %s (%s) and emits a single JumpFinally per return: `try { try { return v; } finally { A } } finally { B }` runs A only, and '
+            'the outer handler stays registered until the frame is torn down' % (fty[1] if fty else 'flag', fty[0] if fty else '?'))
